@@ -282,7 +282,7 @@ impl Property for C13 {
         ]
     }
     fn families(&self, tier: Tier) -> Vec<Family<Case>> {
-        vec![Family::random("connectors", tier.n(48_000, 250_000), fam_connectors), Family::enumerated("direction-table", direction_table())]
+        vec![Family::random("connectors", tier.n(48_000, 750_000), fam_connectors), Family::enumerated("direction-table", direction_table())]
     }
     fn judge(&self, case: &Case, _strict: bool) -> Verdict {
         let doc = case_xml(case);
